@@ -320,23 +320,28 @@ func sanitize(s string) string {
 }
 
 func loadKnown(id string) []knownFinding {
-	raw, err := os.ReadFile(filepath.Join(Root, "known_findings.jsonl"))
-	if err != nil {
-		return nil
-	}
+	files := []string{filepath.Join(Root, "known_findings.jsonl")}
+	more, _ := filepath.Glob(filepath.Join(Root, "known_findings.d", "*.jsonl"))
+	files = append(files, more...)
 	var out []knownFinding
-	for _, line := range bytes.Split(raw, []byte("\n")) {
-		line = bytes.TrimSpace(line)
-		if len(line) == 0 || line[0] == '#' {
+	for _, fn := range files {
+		raw, err := os.ReadFile(fn)
+		if err != nil {
 			continue
 		}
-		var k knownFinding
-		if err := json.Unmarshal(line, &k); err != nil {
-			fmt.Fprintf(os.Stderr, "known_findings.jsonl: bad line: %v\n", err)
-			continue
-		}
-		if k.Property == id {
-			out = append(out, k)
+		for _, line := range bytes.Split(raw, []byte("\n")) {
+			line = bytes.TrimSpace(line)
+			if len(line) == 0 || line[0] == '#' {
+				continue
+			}
+			var k knownFinding
+			if err := json.Unmarshal(line, &k); err != nil {
+				fmt.Fprintf(os.Stderr, "%s: bad line: %v\n", fn, err)
+				continue
+			}
+			if k.Property == id {
+				out = append(out, k)
+			}
 		}
 	}
 	return out
